@@ -230,6 +230,56 @@ theorem C17_status_numbering (e : Entity)
   simp only [convEnum, hp]
   exact enumValues_implicit _ _ h
 
+/-! ## The converted skeleton -/
+
+/-- **State message.** When the State object converts without error, its message has exactly the
+four fields `metadata = 1, keys = 2, data = 3, status = 4`. -/
+theorem C17_state_skeleton (c : Ctx) (e : Entity)
+    (h : (convDecl c [] false [] (stateObject e)).errs = 0) :
+    declMsgOf c [] false [] (stateObject e) ∈ (convDecl c [] false [] (stateObject e)).msgs ∧
+    (declMsgOf c [] false [] (stateObject e)).fields.map (fun f => (f.name, f.number)) =
+      [(b!"metadata", 1), (b!"keys", 2), (b!"data", 3), (b!"status", 4)] := by
+  refine ⟨convDecl_msgOf _ _ _ _ _, ?_⟩
+  rw [declMsgOf_fields c [] false [] (stateObject e) h]
+  have h1 : toSnake b!"metadata" = b!"metadata" := by decide
+  have h2 : toSnake b!"keys" = b!"keys" := by decide
+  have h3 : toSnake b!"data" = b!"data" := by decide
+  have h4 : toSnake b!"status" = b!"status" := by decide
+  simp [stateObject, ObjDecl.props, List.zipIdx_cons, Property.name, h1, h2, h3, h4]
+
+/-- **Event message**: `metadata = 1, keys = 2, event = 3`. -/
+theorem C17_event_skeleton (c : Ctx) (e : Entity)
+    (h : (convDecl c [] false [] (eventObject e)).errs = 0) :
+    declMsgOf c [] false [] (eventObject e) ∈ (convDecl c [] false [] (eventObject e)).msgs ∧
+    (declMsgOf c [] false [] (eventObject e)).fields.map (fun f => (f.name, f.number)) =
+      [(b!"metadata", 1), (b!"keys", 2), (b!"event", 3)] := by
+  refine ⟨convDecl_msgOf _ _ _ _ _, ?_⟩
+  rw [declMsgOf_fields c [] false [] (eventObject e) h]
+  have h1 : toSnake b!"metadata" = b!"metadata" := by decide
+  have h2 : toSnake b!"keys" = b!"keys" := by decide
+  have h3 : toSnake b!"event" = b!"event" := by decide
+  simp [eventObject, ObjDecl.props, List.zipIdx_cons, Property.name, h1, h2, h3]
+
+/-- **Event oneof message.** When the EventType oneof converts without error, its message has one
+field per declared event, numbered from 1 in declaration order, named
+`snake(lowerCamel(event))`, all members of oneof 0. -/
+theorem C17_event_oneof_skeleton (c : Ctx) (e : Entity)
+    (h : (convDecl c [] true [] (eventOneof e)).errs = 0) :
+    declMsgOf c [] true [] (eventOneof e) ∈ (convDecl c [] true [] (eventOneof e)).msgs ∧
+    (declMsgOf c [] true [] (eventOneof e)).fields.map (fun f => (f.name, f.number)) =
+      e.events.zipIdx.map (fun (ev, i) => (toSnake (toLowerCamel ev.name), i + 1)) ∧
+    (∀ f ∈ (declMsgOf c [] true [] (eventOneof e)).fields, f.oneof = some 0) := by
+  refine ⟨convDecl_msgOf _ _ _ _ _, ?_, ?_⟩
+  · rw [declMsgOf_fields c [] true [] (eventOneof e) h]
+    simp only [eventOneof, ObjDecl.props, List.nil_append, List.zipIdx_map, List.map_map]
+    apply List.map_congr_left
+    intro x _
+    rfl
+  · intro f hf
+    have := bProps_fld_oneof c ([] ++ [(eventOneof e).name]) true 1 ([] ++ (eventOneof e).props) f
+      (by simpa [declMsgOf, declMsg, mkMsg, MsgSkel.fields] using hf)
+    simpa using this
+
 /-! ## Non-vacuity -/
 
 def exEntity : Entity :=
